@@ -30,7 +30,7 @@ pub const CLASSES: &[&str] = &[
     "shred:oversize-shards", "shred:mismatched-shard-sizes", "shred:tag-contradicts-index", "shred:contradictory-last-flags", "shred:slice-beyond-last", "shred:many-slices", "shred:far-future-slot", "shred:garbage",
     "repair-request:unknown-sender", "repair-request:unknown-block", "repair-request:every-index", "repair-request:garbage",
     "repair-response:unsolicited", "repair-response:garbage", "repair-response:wrong-variant",
-    "tx:empty", "tx:max", "tx:oversize", "tx:flood", "tx:garbage",
+    "tx:empty", "tx:max", "tx:oversize", "tx:flood", "tx:garbage", "tx:fill-boundary",
 ];
 
 /// Builds 64 consistent, validly signed shreds of one slice whose leaves are arbitrary byte strings.
@@ -298,6 +298,17 @@ pub fn generate(rng: &mut SRng, h: &HostileCtx, class: &'static str) -> Vec<Host
             for _ in 0..200 {
                 let len = rng.random_range(0..=512);
                 push(Ep::Tx, target, ser(&Transaction(vec![9u8; len])));
+            }
+        }
+        "tx:fill-boundary" => {
+            // valid transactions sized so that a slice fills up to within a few bytes of its capacity: 61
+            // maximal ones, one of a swept length, then maximal ones again (the room left before the last
+            // admitted transaction lands on every value around MAX_TRANSACTION_SIZE + 8 over the batches)
+            let odd = if rng.random_bool(0.8) { rng.random_range(440..=512) } else { rng.random_range(0..=512) };
+            let at = rng.random_range(0..62);
+            for i in 0..64 {
+                let len = if i == at { odd } else { 512 };
+                push(Ep::Tx, target, ser(&Transaction(vec![0x42u8; len])));
             }
         }
         "tx:garbage" => {
